@@ -665,6 +665,30 @@ EndBlock(dt) ==
                    newQ, newQH, expQ, expQH, req, actId, actBind, resp, vol, earned, oearned>>
 
 -----------------------------------------------------------------------------
+(* Genesis: genesis.go PrepForZeroHeightGenesis.  Every pending fee goes back to its       *)
+(* consumer, every earning to its provider; every context is paused with no batch in       *)
+(* flight.  The request, queue and earnings records stay in the store (they are not        *)
+(* exported): the chain stops here, so this is the last step of a history.                 *)
+
+PrepRefunds(a) ==
+    SumOver([r \in actId |-> IF r \in DOMAIN req /\ r[1] \in DOMAIN ctx /\ ctx[r[1]].cons = a
+                             THEN req[r].fee ELSE 0], actId)
+    + Get0(earned, a)
+
+PrepZeroHeight ==
+    /\ phase = "deliver"
+    /\ bal' = [a \in DOMAIN bal |->
+                IF a = REQ
+                THEN bal[REQ] - SumOver([r \in actId |-> IF r \in DOMAIN req THEN req[r].fee ELSE 0], actId)
+                              - SumOver(earned, DOMAIN earned)
+                ELSE IF a \in ModuleAccts THEN bal[a] ELSE bal[a] + PrepRefunds(a)]
+    /\ ctx' = [id \in DOMAIN ctx |->
+                [ctx[id] EXCEPT !.state = "paused", !.bstate = "completed", !.reqCount = 0, !.respCount = 0]]
+    /\ cb' = <<>>
+    /\ UNCHANGED <<height, now, phase, params, supply, defs, bind, powner, oprov, obind, waddr, nctx,
+                   newQ, newQH, expQ, expQH, req, actId, actBind, resp, vol, earned, oearned>>
+
+-----------------------------------------------------------------------------
 (* Module services: handler.go handleMsgCallService module branch +          *)
 (* keeper/module_service.go RequestModuleService.  As found (D9) only; the    *)
 (* repository's application registers no module service.                      *)
